@@ -255,8 +255,19 @@ pub fn run(cfg: &Cfg, rep: &mut Report) {
             dev.clear();
             // growable formatter, and now and then the fixed-capacity one with ample room
             let use_array = rng.chance(1, 4);
+            // mostly ample room; now and then a capacity that holds the response units exactly but not the terminator, or
+            // exactly everything (a message that then still succeeds must be framed like any other)
+            let cap = if use_array && want.len() >= 1 && want.len() <= 160 && rng.chance(1, 3) { want.len() - rng.usize(2) } else { 4096 };
             let (r, got) = if use_array {
-                let cr = run_cap(4096, built.root(), &plan.msg, &mut dev, &mut c).unwrap();
+                let cr = run_cap(cap, built.root(), &plan.msg, &mut dev, &mut c).unwrap();
+                if cap != 4096 {
+                    ctx.count(if cap == want.len() { "formatter.ArrayVec.exact-fit" } else { "formatter.ArrayVec.terminator-does-not-fit" });
+                    if let Err(e) = &cr.result {
+                        // does not fit: not a successfully executed message, nothing to judge here (C11 does)
+                        ctx.count(&format!("formatter.ArrayVec.small.fails-with.{}", e.get_code()));
+                        continue;
+                    }
+                }
                 (cr.result, cr.buf)
             } else {
                 let mut resp: Vec<u8> = Vec::new();
